@@ -24,7 +24,7 @@ import (
 
 var certDir string
 
-var inconclusiveCount int
+var inconclusiveCount, watchdogCount int
 
 // Octets is a byte string that serialises to JSON as a string in which every
 // octet is the code point of the same value (Latin-1), so that replay files and
@@ -403,9 +403,15 @@ func (s *subCheck[C]) eval(c C) Verdict {
 		st.mu.Unlock()
 		fmt.Fprintf(os.Stdout, "INCONCLUSIVE property=%s sub=%s %s\n", s.pid, s.sub, v.Inconclusive)
 		inconclusiveCount++
-		if inconclusiveCount >= 6 {
+		if strings.Contains(v.Inconclusive, "watchdog") {
+			watchdogCount++
+		}
+		if watchdogCount >= 6 || inconclusiveCount >= 300 {
 			// watchdogs cost 20 s each: a run that keeps hitting them will not
-			// finish; give up (exit 2 in the driver), never a verdict
+			// finish; give up (exit 2 in the driver), never a verdict. Cases
+			// that end early without having waited (a wall-clock trigger that
+			// fired too soon on a busy machine) are cheap: skipped, counted,
+			// and only a flood of them ends the run.
 			fmt.Fprintf(os.Stdout, "INCONCLUSIVE property=%s giving up after %d inconclusive cases\n", s.pid, inconclusiveCount)
 			st.count(s.pid, s.sub, cj, v)
 			st.flush()
